@@ -10,6 +10,7 @@ import (
 	"fmt"
 	"os"
 
+	"github.com/sarchlab/akita/v4/sim"
 	"github.com/sarchlab/mgpusim/v4/amd/driver"
 
 	"verifharness/vlib"
@@ -56,7 +57,7 @@ func canonical() []*scenario {
 			{K: kFree, C: 0, Buf: 1}, {K: kAlloc, C: 0, Size: P}}},
 		// ---- every operation x device kind x page count around multiples of
 		// the member count (k) of a unified device
-		{Name: "canon-remap-onto-unified-k2", Log2Page: 12, GPUPages: []int{64, 64, 64}, Ops: []op{
+		{Name: "canon-remap-onto-unified-k2", Log2Page: 12, GPUPages: []int{128, 128, 128}, Ops: []op{
 			{K: kInit, C: 0}, {K: kUnify, C: 0, Devs: []int{2, 3}}, // device 4, k=2
 			{K: kAlloc, C: 0, Size: P}, {K: kAlloc, C: 0, Size: 2 * P}, {K: kAlloc, C: 0, Size: 3 * P}, {K: kAlloc, C: 0, Size: 5*P - 1},
 			{K: kAlloc, C: 0, Size: 4 * P}, {K: kAlloc, C: 0, Size: 9 * P},
@@ -70,7 +71,7 @@ func canonical() []*scenario {
 			{K: kFree, C: 0, Buf: 3}, {K: kFree, C: 0, Buf: 0}, {K: kFree, C: 0, Buf: 5}, {K: kFree, C: 0, Buf: 2},
 			{K: kFree, C: 0, Buf: 1}, {K: kFree, C: 0, Buf: 4}, {K: kFree, C: 0, Buf: 6}, {K: kFree, C: 0, Buf: 7},
 			{K: kAlloc, C: 0, Size: 2 * P}}},
-		{Name: "canon-remap-onto-unified-k3", Log2Page: 12, GPUPages: []int{64, 64, 64}, Ops: []op{
+		{Name: "canon-remap-onto-unified-k3", Log2Page: 12, GPUPages: []int{128, 128, 128}, Ops: []op{
 			{K: kInit, C: 0}, {K: kUnify, C: 0, Devs: []int{1, 2, 3}}, // device 4, k=3
 			{K: kAlloc, C: 0, Size: 6 * P}, {K: kAlloc, C: 0, Size: 3 * P}, {K: kAlloc, C: 0, Size: 5 * P}, {K: kAlloc, C: 0, Size: 2 * P},
 			{K: kAlloc, C: 0, Size: 7 * P}, {K: kAlloc, C: 0, Size: P}, {K: kAlloc, C: 0, Size: 4 * P}, {K: kAlloc, C: 0, Size: 10 * P},
@@ -175,6 +176,53 @@ func canonical() []*scenario {
 			{K: kSelect, C: 0, Dev: 3}, {K: kAlloc, C: 0, Size: 5 * P}, {K: kAlloc, C: 0, Size: 3 * P},
 			{K: kRemap, C: 0, Buf: 1, Off: 1, Size: 2 * P, Dev: 0}, {K: kRemap, C: 0, Buf: 0, Off: 0, Size: 3 * P, Dev: 3},
 			{K: kFree, C: 0, Buf: 1}, {K: kFree, C: 0, Buf: 0}, {K: kFree, C: 0, Buf: 2}, {K: kAlloc, C: 0, Size: P}}},
+		// ---- page-migration preparation (fake MMU + command processors)
+		{Name: "canon-migrate-single-pages-back-and-forth", Log2Page: 12, GPUPages: []int{16, 16, 16}, Ops: []op{
+			{K: kInit, C: 0}, {K: kAllocU, C: 0, Size: 3 * P}, {K: kAlloc, C: 0, Size: 2 * P},
+			{K: kMigrate, C: 0, Migs: []migPart{{Buf: 0, Page: 0, Dev: 2}}},
+			{K: kMigrate, C: 0, Migs: []migPart{{Buf: 0, Page: 1, Dev: 3}}},
+			{K: kMigrate, C: 0, Migs: []migPart{{Buf: 0, Page: 0, Dev: 1}}}, // back
+			{K: kMigrate, C: 0, Migs: []migPart{{Buf: 0, Page: 0, Dev: 2}}}, // and forth
+			{K: kMigrate, C: 0, Migs: []migPart{{Buf: 0, Page: 2, Dev: 2}}},
+			{K: kMigrate, C: 0, Migs: []migPart{{Buf: 0, Page: 1, Dev: 2}}}, // the whole buffer is on GPU 2 now
+			{K: kAlloc, C: 0, Size: 1},
+			{K: kFree, C: 0, Buf: 0}, {K: kAllocU, C: 0, Size: 2*P - 1}, // buffer 3
+			{K: kMigrate, C: 0, Migs: []migPart{{Buf: 3, Page: 1, Dev: 3}}},
+			{K: kSelect, C: 0, Dev: 2}, {K: kAlloc, C: 0, Size: 3 * P}, {K: kFree, C: 0, Buf: 3}, {K: kFree, C: 0, Buf: 1}}},
+		{Name: "canon-migrate-then-free-makes-the-new-frames-reusable", Log2Page: 13, GPUPages: []int{16, 4}, Ops: []op{
+			{K: kInit, C: 0}, {K: kAllocU, C: 0, Size: 2 * 8192}, // buffer 0 on GPU 1
+			{K: kMigrate, C: 0, Migs: []migPart{{Buf: 0, Page: 0, Dev: 2}, {Buf: 0, Page: 1, Dev: 2}}},
+			{K: kSelect, C: 0, Dev: 2}, {K: kAlloc, C: 0, Size: 8192}, {K: kAlloc, C: 0, Size: 1}, // GPU 2 is full
+			{K: kProbe, C: 0},
+			{K: kFree, C: 0, Buf: 0}, // exactly the two frames on GPU 2 come back
+			{K: kAlloc, C: 0, Size: 8192}, {K: kAlloc, C: 0, Size: 8192}, {K: kProbe, C: 0},
+			{K: kFree, C: 0, Buf: 3}, {K: kAllocU, C: 0, Size: 8192}, // buffer 5 on GPU 1
+			{K: kMigrate, C: 0, Migs: []migPart{{Buf: 5, Page: 0, Dev: 2}}}, {K: kProbe, C: 0},
+			{K: kMigrate, C: 0, Migs: []migPart{{Buf: 5, Page: 0, Dev: 1}}}, // the frame left on GPU 2 is written off (observed, not judged)
+			{K: kFree, C: 0, Buf: 5}, {K: kSelect, C: 0, Dev: 1}, {K: kAlloc, C: 0, Size: 2 * 8192}}},
+		{Name: "canon-migrate-several-pages-and-requesters-two-processes", Log2Page: 12, GPUPages: []int{32, 32, 32, 32}, Ops: []op{
+			{K: kInit, C: 0}, {K: kInit, C: 1}, {K: kInitPID, C: 2, From: 0},
+			{K: kAllocU, C: 0, Size: 5 * P}, {K: kAllocU, C: 1, Size: 4 * P}, {K: kAllocU, C: 2, Size: 3*P + 1}, // buffers 0 (A), 1 (B), 2 (A)
+			{K: kMigrate, C: 0, Migs: []migPart{{Buf: 0, Page: 0, Dev: 2}, {Buf: 0, Page: 1, Dev: 3}, {Buf: 0, Page: 2, Dev: 2}, {Buf: 2, Page: 3, Dev: 3}}},
+			{K: kMigrate, C: 1, Migs: []migPart{{Buf: 1, Page: 0, Dev: 4}, {Buf: 1, Page: 1, Dev: 4}, {Buf: 1, Page: 3, Dev: 4}}},
+			{K: kMigrate, C: 2, Migs: []migPart{{Buf: 0, Page: 0, Dev: 4}, {Buf: 0, Page: 2, Dev: 1}}}, // both hosted by GPU 2
+			{K: kMigrate, C: 1, Migs: []migPart{{Buf: 1, Page: 1, Dev: 1}, {Buf: 1, Page: 0, Dev: 2}, {Buf: 1, Page: 3, Dev: 3}}},
+			{K: kRemap, C: 0, Buf: 0, Off: 0, Size: 2 * P, Dev: 1}, // a migrated and a never-migrated... page 0 (GPU 4), page 1 (GPU 3)
+			{K: kDist, C: 1, Buf: 1, Devs: []int{3, 2}},
+			{K: kMigrate, C: 0, Migs: []migPart{{Buf: 0, Page: 3, Dev: 2}, {Buf: 0, Page: 4, Dev: 2}, {Buf: 2, Page: 0, Dev: 3}}}, // still on GPU 1
+			{K: kFree, C: 0, Buf: 0}, {K: kFree, C: 1, Buf: 1}, {K: kFree, C: 2, Buf: 2},
+			{K: kAllocU, C: 1, Size: 2 * P}, {K: kMigrate, C: 1, Migs: []migPart{{Buf: 3, Page: 1, Dev: 3}}}, {K: kFree, C: 1, Buf: 3},
+			{K: kAlloc, C: 0, Size: 3 * P}}},
+		{Name: "canon-migrate-beside-a-unified-device", Log2Page: 16, GPUPages: []int{24, 24, 24}, Ops: []op{
+			{K: kInit, C: 0}, {K: kUnify, C: 0, Devs: []int{2, 3}}, // device 4
+			{K: kAllocU, C: 0, Size: 4 * 65536}, {K: kSelect, C: 0, Dev: 4}, {K: kAlloc, C: 0, Size: 3 * 65536},
+			{K: kMigrate, C: 0, Migs: []migPart{{Buf: 0, Page: 0, Dev: 2}, {Buf: 0, Page: 1, Dev: 2}}},
+			{K: kRemap, C: 0, Buf: 1, Off: 0, Size: 3 * 65536, Dev: 4},
+			{K: kMigrate, C: 0, Migs: []migPart{{Buf: 0, Page: 1, Dev: 3}}},
+			{K: kAlloc, C: 0, Size: 5 * 65536},
+			{K: kMigrate, C: 0, Migs: []migPart{{Buf: 0, Page: 2, Dev: 3}, {Buf: 0, Page: 3, Dev: 2}}},
+			{K: kMigrate, C: 0, Migs: []migPart{{Buf: 0, Page: 1, Dev: 2}}},
+			{K: kFree, C: 0, Buf: 0}, {K: kFree, C: 0, Buf: 1}, {K: kAlloc, C: 0, Size: 2 * 65536}}},
 		{Name: "canon-buddy-single-pages", Buddy: true, Log2Page: 12, GPUPages: []int{16}, Ops: append(append([]op{
 			{K: kInit, C: 0}}, rep(op{K: kAlloc, C: 0, Size: P}, 6)...),
 			op{K: kFree, C: 0, Buf: 0}, op{K: kFree, C: 0, Buf: 1}, op{K: kFree, C: 0, Buf: 4},
@@ -185,6 +233,15 @@ func canonical() []*scenario {
 		{Name: "canon-buddy-remap-block", Buddy: true, Log2Page: 12, GPUPages: []int{16, 16}, Ops: []op{
 			{K: kInit, C: 0}, {K: kAlloc, C: 0, Size: 3 * P}, {K: kRemap, C: 0, Buf: 0, Off: 0, Size: 3 * P, Dev: 2},
 			{K: kSelect, C: 0, Dev: 2}, {K: kAlloc, C: 0, Size: P}, {K: kAlloc, C: 0, Size: P}}},
+		{Name: "canon-buddy-migrate-free-reallocate", Buddy: true, Log2Page: 12, GPUPages: []int{16, 4, 8}, Ops: []op{
+			{K: kInit, C: 0}, {K: kAllocU, C: 0, Size: 3 * P}, {K: kAllocU, C: 0, Size: P}, // buffers 0, 1
+			{K: kMigrate, C: 0, Migs: []migPart{{Buf: 0, Page: 0, Dev: 2}, {Buf: 0, Page: 1, Dev: 2}, {Buf: 0, Page: 2, Dev: 3}}},
+			{K: kMigrate, C: 0, Migs: []migPart{{Buf: 1, Page: 0, Dev: 2}}},
+			{K: kMigrate, C: 0, Migs: []migPart{{Buf: 0, Page: 2, Dev: 2}}}, // GPU 2 is full
+			{K: kSelect, C: 0, Dev: 2}, {K: kProbe, C: 0},
+			{K: kFree, C: 0, Buf: 0}, {K: kAlloc, C: 0, Size: P}, {K: kAlloc, C: 0, Size: P}, {K: kAlloc, C: 0, Size: P}, {K: kProbe, C: 0},
+			{K: kMigrate, C: 0, Migs: []migPart{{Buf: 1, Page: 0, Dev: 1}}}, {K: kMigrate, C: 0, Migs: []migPart{{Buf: 1, Page: 0, Dev: 3}}},
+			{K: kFree, C: 0, Buf: 1}, {K: kFree, C: 0, Buf: 3}, {K: kSelect, C: 0, Dev: 3}, {K: kAlloc, C: 0, Size: 2 * P}}},
 		{Name: "canon-engine-free-last-two-then-copy", Log2Page: 12, GPUPages: []int{64},
 			Engine: &engineCase{Pre: 1, Post: 2, Free: []int{1, 2}, Copy: 0, GPUs: 1}},
 		{Name: "canon-engine-free-middle-then-copy", Log2Page: 12, GPUPages: []int{64},
@@ -206,6 +263,11 @@ func runScenario(rec vlib.Recorder, sc *scenario) {
 		return
 	}
 	rec.Eval()
+	for _, o := range sc.Ops {
+		if o.K == kMigrate {
+			sc.Mig = true
+		}
+	}
 	w := newWorld(rec, sc)
 	if sc.GenSeed == 0 {
 		for i, o := range sc.Ops {
@@ -235,6 +297,9 @@ func runScenario(rec vlib.Recorder, sc *scenario) {
 	}
 	if !w.failed {
 		rec.Count("histories_completed_without_violation", 1)
+	}
+	if sc.Mig {
+		rec.Count("histories_with_migration_peers", 1)
 	}
 	if w.multiPgFree {
 		rec.Count("histories_with_multi_page_free", 1)
@@ -311,8 +376,8 @@ func main() {
 			c.Finish(vlib.FinishOpts{Rule: "replay of one recorded history", MinNontrivial: 0})
 		}
 	}
-	nDefault := c.N(1600, 16000)
-	nBuddy := c.N(400, 4000)
+	nDefault := c.N(1600, 12000)
+	nBuddy := c.N(400, 3000)
 	nEngine := c.N(60, 600)
 	steps := c.N(80, 240)
 	if os.Getenv("C10_ONLY_CANONICAL") != "" { // debugging aid: the seed-independent battery alone
@@ -340,6 +405,7 @@ func main() {
 	}
 	// The allocator kind is a process-global switch read when a device is
 	// created: two phases.
+	sim.GetIDGenerator() // initialised lazily and without synchronisation: once, before the worker goroutines
 	driver.VerifUseBuddyAllocator(false)
 	observeUnjudged(c)
 	vlib.Parallel(len(def), 0, func(i int) { runScenario(c, def[i]) })
@@ -358,7 +424,9 @@ func main() {
 	}
 	c.Finish(vlib.FinishOpts{
 		Rule: "history = (page size 2^12..2^16, 1-4 GPUs of 4-256 pages, default or buddy allocator, 1-4 processes, up to 3 unified devices over 1-4 member GPUs " +
-			"(member lists may overlap), sequence of Init/InitWithExistingPID/SelectGPU/CreateUnifiedGPU/AllocateMemory/AllocateUnifiedMemory/FreeMemory/Remap/Distribute " +
+			"(member lists may overlap), sequence of Init/InitWithExistingPID/SelectGPU/CreateUnifiedGPU/AllocateMemory/AllocateUnifiedMemory/FreeMemory/Remap/Distribute, " +
+			"page migrations (a third of the histories: a fake MMU sends vm.PageMigrationReqToDriver for 1-5 unified pages of one process hosted by one GPU and requested by 1-2 other GPUs, " +
+			"fake command processors acknowledge RDMA drain, shootdown, page copy, GPU restart and RDMA restart; the step ends when the driver has answered the MMU) " +
 			"and fill-the-device probes; SelectGPU, Remap and every entry of a Distribute list name the CPU (device 0), an actual GPU or a unified device, Distribute lists " +
 			"have 1-5 entries with repetitions; page counts aimed at a unified device of k members are drawn from {1,k-1,k,k+1,2k-1,2k,2k+1,3k+1,random}), " +
 			"generated from VERIF_SEED plus a fixed canonical battery; after every call every page of every " +
@@ -375,10 +443,13 @@ func main() {
 			"within capacity for ONE multi-page request (Remap, each Distribute share) onto a unified device = every member GPU could serve it alone (which member serves it is the implementation's choice); " +
 				"requests flagged 'tight' (the device has the room in total, a member has not) are issued separately and a panic there carries its own key",
 			"Distribute: entry i of the returned byte counts describes the i-th consecutive segment of the buffer, which must lie on the device entry i names; room for the whole buffer is demanded on every GPU reachable through the list",
+			"page migration: requests are the ones the akita MMU can send (pages carrying the Unified flag - placed by AllocateUnifiedMemory or an earlier migration -, requester != hosting GPU, " +
+				"CurrAccessingGPUs = the GPUs that hosted the pages so far, destination GPU has a free page per page); after the handshake the page must be mapped to a fresh frame inside the requesting GPU, " +
+				"recorded for that GPU, equal to the frame the page copy sent to the command processor writes to (= the allocator's record); the frame left behind is treated as never returned (observed, not judged); " +
+				"the engine run of a handshake is bounded by 200000 events",
 			"CreateUnifiedGPU member lists are distinct actual GPUs; the CPU is used as SelectGPU/Remap/Distribute target only (its 4 GiB are never filled)",
 			"buddy allocator: 4 KiB pages, power-of-two DRAM sizes, no Distribute; 'within capacity' = an ideally coalescing buddy system could serve the request",
 			"a history stops at its first violation (the shadow no longer describes the driver afterwards)",
-			"page-migration preparation (AllocatePageWithGivenVAddr via the MMU port) is not driven here",
 		},
 		MinNontrivial: 50,
 		MinCounters:   minc,
